@@ -213,8 +213,18 @@ func checkVecQueriesSharedHandle(prop, where string, seg segment.Segment, want *
 				desc string
 			}
 			var prev *pending
+			// an iterator of an earlier, non-empty answer that was read only partly: it is handed back
+			// as preallocation for reading the next answer
+			var carry segment.VecPostingsIterator
 			settle := func(p *pending) error {
-				got, err := readVecList(p.pl)
+				got, err := readVecListWith(p.pl, carry)
+				carry = nil
+				if err == nil && len(got) > 1 {
+					it := p.pl.Iterator(nil)
+					if _, e := it.Next(); e == nil {
+						carry = it
+					}
+				}
 				if err != nil {
 					return fmt.Errorf("%s: %w", p.desc, err)
 				}
